@@ -21,8 +21,13 @@ SCRIPTS = {
     'web404': ['c:GET /nope{0} HTTP/1.1\r\nHost: x\r\n\r\n', '-'],
     'reverse': ['c:GET /get HTTP/1.1\r\nHost: {0}x\r\n\r\n', 'u:RESP', '-'],
     'garbage': ['c:\x01\x02{0}\r\n\r\n', '-'],
+    # a proxy plugin rejects the (first / the follow-up) request from handle_client_request, i.e. after the upstream connection exists
+    'reject': ['D:GET http://o.example/deny{0} HTTP/1.1\r\nHost: o.example\r\n\r\n', '-'],
+    'reject2': ['c:GET http://o.example/a{0} HTTP/1.1\r\nHost: o.example\r\n\r\n', 'u:RESP',
+                'D:GET http://o.example/deny HTTP/1.1\r\nHost: o.example\r\n\r\n', '-'],
 }
-ROLE_FLAGS = {'forward': 'forward', 'tunnel': 'forward', 'web': 'web', 'web404': 'web', 'reverse': 'all', 'garbage': 'forward'}
+ROLE_FLAGS = {'forward': 'forward', 'tunnel': 'forward', 'web': 'web', 'web404': 'web', 'reverse': 'all', 'garbage': 'forward', 'reject': 'forward_reject',
+              'reject2': 'forward_reject'}
 
 
 def _abort_item(kind):
@@ -44,6 +49,7 @@ def _abort_item(kind):
 def _one_connection(xk, env, role, d0, s0, s1, abort_at, abort_side, abort_kind, connect):
     """Runs one connection script with the configured abort; returns (error string | None)."""
     ex = xk.ex
+    scen.DENY[0] = False
     first = len(env.sockets)
     cs = xk.accept('client')
     cs.mode = 'fair'
@@ -75,7 +81,9 @@ def _one_connection(xk, env, role, d0, s0, s1, abort_at, abort_side, abort_kind,
                         # (garbage instead of the FIRST HTTP response makes the forward proxy's response parser raise: a protocol error ends
                         # the connection; after a complete response, unparseable bytes are relayed untouched by design)
                         injected = tgt
-        elif act.startswith('c:') and not cs.closed:
+        elif act[:2] in ('c:', 'D:') and not cs.closed:
+            if act[0] == 'D':
+                scen.DENY[0] = True
             raw = act[2:].encode('latin-1')
             parts = raw.split(b'{0}')
             data = parts[0]
@@ -178,7 +186,7 @@ def obligations(tier):
                     obs.append({'name': 'release.%s.%s_%s.at%d' % (role, side, kind, at), 'fn': 'release',
                                 'cfg': {'role': role, 'abort_at': at, 'abort_side': side, 'abort_kind': kind,
                                         'repeat': (kind in ('eof', 'reset') and at in (1, 2))}, 'timeout': T})
-        if role in ('forward', 'tunnel', 'reverse'):
+        if role in ('forward', 'tunnel', 'reverse', 'reject'):
             for conn in ('refused', 'timeout', 'gaierror'):
                 obs.append({'name': 'release.%s.connect_%s' % (role, conn), 'fn': 'release',
                             'cfg': {'role': role, 'abort_at': 99, 'abort_side': 'client', 'abort_kind': 'eof', 'connect': conn, 'repeat': True},
@@ -189,7 +197,8 @@ def obligations(tier):
 META = {
     'bounds': {
         'quick': 'one connection at a time on a real executor; scripts: forward proxy with two keep-alive requests, CONNECT tunnel with data '
-                 'both ways, web route with two requests, web 404, reverse proxy, garbage; every prefix of each script followed by an abort '
+                 'both ways, web route with two requests, web 404, reverse proxy, garbage, a request (first / follow-up) rejected by a proxy plugin after the '
+                 'upstream connection was made; every prefix of each script followed by an abort '
                  'on the client or upstream side in {EOF, reset, EPIPE on send, (EIO, timeout at steps 1-2)}; connect refusal / timeout / '
                  'resolution failure; connections no abort reaches end by the idle reaper under a jumped clock; one symbolic payload byte and '
                  'two symbolic fair short-write outcomes; selected histories run twice on the same executor',
